@@ -647,7 +647,9 @@ def run_check(cls, argv=None):
                             known_findings_hit=sorted(known_hit), disagreements=len(soft)),
               assumptions=trusted, wall_s=round(time.time() - t0, 2), violations=violations)
     os.makedirs(os.path.join(VERIF, 'evidence'), exist_ok=True)
-    with open(os.path.join(VERIF, 'evidence', pid + '.json'), 'w') as f:
+    # development runs without the proof step or against another tree never touch the committed evidence
+    ev_name = pid + '.json' if not (args.skip_proof or args.replay or os.environ.get('ELFI_REPO', '/repo') != '/repo') else pid + '.dev.json'
+    with open(os.path.join(VERIF, 'evidence', ev_name), 'w') as f:
         json.dump(ev, f, indent=1, sort_keys=True, default=jdefault)
     for l in lines:
         print(l, flush=True)
